@@ -153,18 +153,11 @@ def match_known(open_f, sources, kind, detail):
     if kind == "compile-panic":
         if "overflow" in detail and overflow_finding(open_f):
             return overflow_finding(open_f)
-        if "unknown type: failed to find name" in detail and "C03-F5" in open_f:
-            return "C03-F5"
     if kind == "ts-run":
-        if "Expected ident" in detail and "C03-F6" in open_f and RESERVED_BINDER.search(mask_noncode(text + "\n" + std_text())):
-            return "C03-F6"
         if any(OCTAL.search(l) for l in lits) and "octal" in detail.lower() and "C03-F4" in open_f:
             return "C03-F4"
         if any(("`" in l or "${" in l) for l in lits) and "C04-F3" in open_f:
             return "C04-F3"
-    if kind in ("wasm-run", "ts-run") and "no arm handles" in detail:
-        if has_dup_object_field(text) and "C03-F3" in open_f:
-            return "C03-F3"
     return None
 
 
@@ -367,6 +360,7 @@ class MatchGen:
                 k = rng.range(1, 3)
                 self.defs.append(("S", [self.pick_ty(t, allow_self=False) for _ in range(k)]))
         self.nid = 0
+        self.int_ids = []
 
     def pick_ty(self, t, allow_self):
         hi = t if allow_self else t - 1
@@ -409,14 +403,17 @@ class MatchGen:
         d = self.defs[t]
         k = rng.below(10)
         if depth <= 0 or d[0] == "P" or k < 3:
-            if binders and rng.chance(1, 3):
+            if binders and rng.chance(1, 2):
                 self.nid += 1
-                return f"x{self.nid}", ["i"]
+                name = self.nid if t == 0 else 1000 + self.nid      # int-typed binders are < 1000
+                if t == 0:
+                    self.int_ids.append(name)
+                return f"x{name}", ["i", str(name)]
             return "_", ["w"]
-        if k == 9 and depth >= 1 and where in ("top", "varg"):
-            n = rng.range(2, 3)
-            alts = [self.pat(t, depth - 1, binders=False, where="or") for _ in range(n)]
-            return " | ".join(a[0] for a in alts), ["r", str(n)] + [x for a in alts for x in a[1]]
+        if k >= 8 and depth >= 1 and where in ("top", "varg"):
+            alts = self.or_alts(t, depth, binders)
+            if alts:
+                return " | ".join(a[0] for a in alts), ["r", str(len(alts))] + [x for a in alts for x in a[1]]
         if d[0] == "E":
             j = rng.below(len(d[1]))
             tys = d[1][j]
@@ -434,6 +431,35 @@ class MatchGen:
         for o, s in zip(order, subs):
             toks += [str(o)] + s[1]
         return src, toks
+
+    def or_alts(self, t, depth, binders):
+        """Alternatives of an or-pattern: without binders, or all binding the same int name `x`
+        (each alternative a variant with an int field; `x` sits at the first int field, a later field
+        may hold a refutable pattern, so an alternative can assign `x` and then fail)."""
+        rng = self.rng
+        d = self.defs[t]
+        n = rng.range(2, 3)
+        if binders and d[0] == "E" and rng.chance(2, 3):
+            cands = [j for j, tys in enumerate(d[1]) if 0 in tys]
+            if cands:
+                self.nid += 1
+                name = self.nid
+                self.int_ids.append(name)
+                alts = []
+                for _ in range(n):
+                    j = rng.pick(cands)
+                    tys = d[1][j]
+                    first = tys.index(0)
+                    subs = []
+                    for pos, ty in enumerate(tys):
+                        if pos == first:
+                            subs.append((f"x{name}", ["i", str(name)]))
+                        else:
+                            subs.append(self.pat(ty, depth - 1, binders=False, where="varg"))
+                    alts.append((f"K{j}(" + ", ".join(x[0] for x in subs) + ")",
+                                 ["v", str(t), str(j), str(len(tys))] + [y for x in subs for y in x[1]]))
+                return alts
+        return [self.pat(t, depth - 1, binders=False, where="or") for _ in range(n)]
 
     def val(self, t, depth):
         rng = self.rng
@@ -455,15 +481,20 @@ class MatchGen:
         rng = self.rng
         t = rng.range(1, len(self.defs) - 1)
         narms = rng.range(1, 4)
-        arms = [self.pat(t, 2) for _ in range(narms)]
+        arms = []
+        for _ in range(narms):
+            self.int_ids = []
+            a = self.pat(t, 2)
+            arms.append((a[0], a[1], list(self.int_ids)))
         d = self.defs[t]
         if d[0] == "E" and rng.chance(1, 2):      # complete the variants
             arms = arms[:1] + [(f"K{j}" + ("(" + ", ".join("_" for _ in tys) + ")" if tys else ""),
-                               ["v", str(t), str(j), str(len(tys))] + ["w"] * len(tys)) for j, tys in enumerate(d[1])]
+                               ["v", str(t), str(j), str(len(tys))] + ["w"] * len(tys), []) for j, tys in enumerate(d[1])]
         elif rng.chance(7, 10):
-            arms.append(("_", ["w"]))
+            arms.append(("_", ["w"], []))
         vals = [self.val(t, 3) for _ in range(rng.range(3, 6))]
-        body = "match x { " + ", ".join(f"{a[0]} -> {i}" for i, a in enumerate(arms)) + " }"
+        body = "match x { " + ", ".join(
+            f"{a[0]} -> {i * 1000}" + "".join(f" + x{n}" for n in dict.fromkeys(a[2])) for i, a in enumerate(arms)) + " }"
         main = "".join(f"    let _ = Process.println(Str.fromInt(Main.m({v[0]})));\n" for v in vals)
         src = self.decls() + f"class Main {{\n  function m(x: T{t}): int = {body}\n  function main(): unit = {{\n{main}  }}\n}}\n"
         line = ["match"] + self.enc_defs() + ["Y", str(t), "A", str(len(arms))] + [x for a in arms for x in a[1]] + \
@@ -480,6 +511,8 @@ def impl_match_answer(ans, nvals):
         txt = ans.get("errors", "")
         if "exhaustive" in txt.lower() and ans.get("nerr") == 1:
             return "0", []
+        if "collides with a previously defined name" in txt:
+            return "dup", []
         return None, "unexpected diagnostics: " + txt[:200]
     if ans.get("compile") != "ok":
         return None, "compile " + str(ans.get("compile")) + " " + str(ans.get("msg", ""))[:120]
@@ -488,7 +521,13 @@ def impl_match_answer(ans, nvals):
         r = ans.get(b, {})
         if r.get("end", "").startswith("no-node"):
             return "1", None
-        ends = ["a" + l for l in r.get("lines", [])]
+        ends = []
+        for l in r.get("lines", []):
+            try:
+                n = int(l)
+                ends.append(f"a{n // 1000}:{n % 1000}")
+            except ValueError:
+                ends.append("?" + l)
         e = r.get("end", "")
         if e != "ok":
             ends.append("fb" if e.startswith("panic:") and e[6:].strip() == "" else "ft:" + e[:60])
@@ -510,12 +549,11 @@ def parse_model_match(m):
 
 
 def check_matches(ctx, rng, n, stats, open_f):
-    steer = "C03-F3" in open_f
     cases = []
     for i in range(n):
-        g = MatchGen(rng.fork(), allow_dup=(not steer) and rng.chance(1, 4))
+        g = MatchGen(rng.fork(), allow_dup=rng.chance(1, 8))
         cases.append(g.case())
-    if True:   # dedicated probe: duplicate field (C03-F3) - fixed tree: must agree and not fall through
+    if True:   # regression probe: duplicate field (former C03-F3) must be rejected / untyped
         g = MatchGen(common.Rng(7), allow_dup=False)
         src = ("class T1(K0, K1(int)) {}\nclass T2(val f0: T1, val f1: int) {}\nclass Main {\n"
                "  function m(x: T2): int = match x { { f0 as K1(_), f0 as _, f1 as _ } -> 0 }\n"
@@ -537,7 +575,17 @@ def check_matches(ctx, rng, n, stats, open_f):
             if report(ctx, open_f, "generated match program", prog, a, stats, shrink=shrink_lines) and len(ctx.violations) > 3:
                 return
             continue
-        if d.get("typed") != "1":
+        if acc == "dup" or (d.get("typed") == "0" and " o " in " " + line):
+            # an object pattern naming a field twice: rejected by the checker (fix 76a01ae) <-> not a
+            # typed checked pattern in the model (`nodupNat orders` inside `cpatTy`)
+            stats["match_dup"] = stats.get("match_dup", 0) + 1
+            if not (acc == "dup" and d.get("typed") == "0"):
+                ctx.violation(f"duplicate-field object pattern: checker says {acc}, model typed={d.get('typed')}",
+                              {"protocol": "match", "line": line, "program": prog, "answer": a, "model": m,
+                               "broken": "correspondence match: cpatTy (nodup) vs check_matching_pattern"}, no_input=(acc != "1"))
+                return
+            continue
+        if d.get("typed") != "1" or d.get("binds") != "1":
             ctx.violation("match generator produced an untyped checked pattern (generator/model bug)", {"line": line, "model": m, "program": prog, "broken": "match generator"}, no_input=True)
             return
         stats["match_acc"][d.get("acc", "?")] = stats["match_acc"].get(d.get("acc", "?"), 0) + 1
@@ -550,10 +598,6 @@ def check_matches(ctx, rng, n, stats, open_f):
         went_wrong = [e for e in iends if e == "fb" or e.startswith("ft")]
         if acc == "1" and went_wrong:
             # the property itself fails on the real code
-            if d.get("nodup") == "0" and "C03-F3" in open_f and "fb" in iends and mends == iends:
-                known_once(ctx, open_f["C03-F3"], "object pattern naming a field twice: accepted, falls through to the fallback panic (model predicts it)")
-                stats["known_hits"]["C03-F3"] = stats["known_hits"].get("C03-F3", 0) + 1
-                continue
             ctx.violation("accepted match goes wrong on the real code: ends " + ",".join(iends) + " (model: " + ",".join(mends) + ")",
                           {"protocol": "match", "line": line, "program": prog, "answer": a, "model": m})
             if len(ctx.violations) > 3:
@@ -568,7 +612,10 @@ def check_matches(ctx, rng, n, stats, open_f):
         if acc == "1":
             stats["match_values"] += len(iends)
             for e in iends:
-                stats["match_arm_hist"][e] = stats["match_arm_hist"].get(e, 0) + 1
+                k = e.split(":")[0]
+                stats["match_arm_hist"][k] = stats["match_arm_hist"].get(k, 0) + 1
+                if not e.endswith(":0"):
+                    stats["match_bound_values"] = stats.get("match_bound_values", 0) + 1
 
 
 # ------------------------------------------------------------------ oracle A: accepted mutants of tests/*.sam and std/*.sam
@@ -671,31 +718,62 @@ def check_mutants(ctx, rng, n, stats, open_f):
         ctx.violation("tests/AllTests.sam no longer lists the sample modules (mutant oracle has no base)", {"broken": "sample discovery"}, no_input=True)
         return
     mods = sorted(entries)
-    # which std modules each sample uses (mutation targets too)
-    jobs = []
-    tries = 0
-    while len(jobs) < n and tries < n * 3:
-        tries += 1
-        mod = rng.pick(mods)
-        cl = closure(srcs, [mod])
-        targets = [mod] * 3 + [k for k in cl if k.startswith("std.")]
-        target = rng.pick(targets)
-        sites = mutation_sites(cl[target])
-        if not sites:
-            continue
-        kinds = sorted(set(x[0] for x in sites))
-        k0 = rng.pick(kinds + ["ident-swap"])          # kind first, so rare operators are not drowned
-        kind, s, e, reps = rng.pick([x for x in sites if x[0] == k0] or sites)
-        rep = rng.pick(reps)
+    closures = {m: closure(srcs, [m]) for m in mods}
+
+    def make_job(mod, target, kind, s, e, rep):
+        cl = closures[mod]
         text = cl[target]
         mutated = dict(cl)
         mutated[target] = text[:s] + rep + text[e:]
         mutated["Drv"] = f"import {{ {entries[mod]} }} from {mod};\n\nclass Main {{\n  function main(): unit = {entries[mod]}.run()\n}}\n"
         line_no = text.count("\n", 0, s) + 1
-        jobs.append((f"{kind} in {target}:{line_no} `{text[s:e]}` -> `{rep}` (entry {mod})", kind, target, mod,
-                     {"sources": mutated, "entry": "Drv", "std": True, "run": True, "ts": True, "timeout_ms": 10000}))
+        return (f"{kind} in {target}:{line_no} `{text[s:e]}` -> `{rep}` (entry {mod})", kind, target, mod,
+                {"sources": mutated, "entry": "Drv", "std": True, "run": True, "ts": True, "timeout_ms": 10000})
+
+    jobs = []
+    if ctx.quick:
+        tries = 0
+        while len(jobs) < n and tries < n * 3:
+            tries += 1
+            mod = rng.pick(mods)
+            cl = closures[mod]
+            targets = [mod] * 3 + [k for k in cl if k.startswith("std.")]
+            target = rng.pick(targets)
+            sites = mutation_sites(cl[target])
+            if not sites:
+                continue
+            kinds = sorted(set(x[0] for x in sites))
+            k0 = rng.pick(kinds + ["ident-swap"])          # kind first, so rare operators are not drowned
+            kind, s, e, reps = rng.pick([x for x in sites if x[0] == k0] or sites)
+            jobs.append(make_job(mod, target, kind, s, e, rng.pick(reps)))
+    else:
+        # thorough: ENUMERATE every site of every non-identifier operator in every sample module and
+        # every std module (all replacements for operator swaps, one drawn replacement for integer
+        # literals), plus `n` sampled identifier swaps (19 674 sites x ~50 candidates each is not affordable)
+        users = {}
+        for m in mods:
+            for k in closures[m]:
+                if k.startswith("std."):
+                    users.setdefault(k, []).append(m)
+        ident = []
+        for target in mods + sorted(users):
+            entry_mods = [target] if target in entries else users[target]
+            for kind, s, e, reps in mutation_sites(srcs[target]):
+                mod = entry_mods[0] if len(entry_mods) == 1 else rng.pick(entry_mods)
+                if kind == "ident-swap":
+                    ident.append((mod, target, kind, s, e, reps))
+                elif kind == "int-literal":
+                    jobs.append(make_job(mod, target, kind, s, e, rng.pick(reps)))
+                else:
+                    for rep in reps:
+                        jobs.append(make_job(mod, target, kind, s, e, rep))
+        stats["enumerated_sites"] = len(jobs)
+        for mod, target, kind, s, e, reps in rng.shuffle(ident)[:n]:
+            jobs.append(make_job(mod, target, kind, s, e, rng.pick(reps)))
     # pass 1: accept decision only (cheap), pass 2: run the accepted ones
-    answers = eval_programs([dict(j[4], run=False) for j in jobs])
+    answers = []
+    for k in range(0, len(jobs), 2000):
+        answers += eval_programs([dict(j[4], run=False) for j in jobs[k:k + 2000]])
     accepted = []
     for j, a in zip(jobs, answers):
         stats["mutants"] += 1
@@ -707,7 +785,9 @@ def check_mutants(ctx, rng, n, stats, open_f):
         elif judge(a):
             report(ctx, open_f, j[0], j[4], a, stats)
     stats["mutants_accepted"] += len(accepted)
-    ans2 = eval_programs([j[4] for j in accepted])
+    ans2 = []
+    for k in range(0, len(accepted), 1000):
+        ans2 += eval_programs([j[4] for j in accepted[k:k + 1000]])
     for j, a in zip(accepted, ans2):
         e = a.get("wasm", {}).get("end", "?")
         stats["end_hist"][e.split(":")[0]] = stats["end_hist"].get(e.split(":")[0], 0) + 1
@@ -916,6 +996,11 @@ def run_corpus(ctx, stats, open_f):
                 if want is not None and a.get("wasm", {}).get("lines") != want and not a.get("wasm", {}).get("end", "").startswith("no-node"):
                     ctx.violation(f"regression input corpus/{name}: output {a.get('wasm', {}).get('lines')} expected {want}",
                                   {"program": d["program"], "answer": a})
+        elif exp == "rejected":
+            # a regression input the checker must reject (a fixed accept-too-much defect)
+            if a.get("check") != "done" or a.get("nerr", 0) <= 0 or a.get("compile") == "ok":
+                ctx.violation(f"regression input corpus/{name} must be rejected by the checker but was accepted",
+                              {"program": d["program"], "answer": a})
         elif exp.startswith("known:"):
             fid = exp[6:]
             if fails and fid in open_f:
@@ -954,7 +1039,7 @@ def new_stats():
             "match_acc": {}, "match_values": 0, "match_arm_hist": {}, "mutants": 0, "mutants_accepted": 0,
             "mut_hist": {}, "mut_acc_hist": {}, "end_hist": {}, "generated": 0, "generated_accepted": 0,
             "mm_bases": 0, "mm_mutants": 0, "mm_mutants_accepted": 0, "gate_lines": [], "gate_checked": 0,
-            "corpus": 0, "known_hits": {}, "violations": 0, "samples": []}
+            "corpus": 0, "enumerated_sites": 0, "known_hits": {}, "violations": 0, "samples": []}
 
 
 def run(ctx):
@@ -985,7 +1070,7 @@ def run(ctx):
         ("matches", lambda: check_matches(ctx, rng.fork(), ctx.scale(120, 4000), stats, open_f)),
         ("multimodule", lambda: check_multimodule(ctx, rng.fork(), ctx.scale(12, 250), stats, open_f)),
         ("generated", lambda: check_generated(ctx, rng.fork(), ctx.scale(40, 600), stats, open_f)),
-        ("mutants", lambda: check_mutants(ctx, rng.fork(), ctx.scale(320, 8000), stats, open_f)),
+        ("mutants", lambda: check_mutants(ctx, rng.fork(), ctx.scale(320, 3000), stats, open_f)),
         ("gate", lambda: check_gate(ctx, stats)),
     ]
     for name, f in steps:
